@@ -2,7 +2,7 @@
 import os
 import re
 
-from vp import Stream
+from vp import Stream, run_lines
 from props import select_e2e as E
 from props.c13 import corpus_lines, bump
 
@@ -589,7 +589,7 @@ def ropt_impl_runner(st, hbin):
         elif rc != 0:
             lines.append(f"crash rc={rc} {err.strip().splitlines()[-1:]}")
         else:
-            lines.append(out.strip())
+            lines.append((out.splitlines() or [""])[0].strip())     # first line: runner_options; the rest belongs to rcfg
     return lines
 
 
@@ -637,6 +637,7 @@ def streams(tier, rng):
                impl_runner=ropt_impl_runner,
                describe="one fresh hx-select-e2e process per case: builder calls before parsing, flags, DIVAN_* variables, builder calls "
                         "after parsing -> hook runner_options (all fields) and options_time_limits, compared with runner_level"),
+        E.rcfg_stream(Stream, run_lines, tier, rng, corpus_lines("C15-rcfg")),
         Stream("e2e-runner-level", "opt", op, nontrivial=lambda c, m: any(spec_of(c, w) for w in "FEPQ"),
                impl_runner=opt_impl_runner(ctx), model_input=opt_model_input, compare=wildcard_eq, hist=op_hist,
                describe="hx-select-e2e --bench '^hx_select_e2e::opt' with the runner level set by flags / DIVAN_* / builder calls; "
